@@ -126,3 +126,12 @@ VARIANTS += [
       "            use = flows.astype(dtype)\n"
       "        self.flows: Final[np.ndarray] = use\n", "silent"),
 ]
+
+VARIANTS += [
+    V("declared-bound-above-documented-value", "moptipyapps/qap/instance.py",
+      "\"tai12a\": 224416", "\"tai12a\": 224461", "fire", "D9.5"),
+    V("declared-bound-above-best-known", "moptipyapps/qap/instance.py",
+      "\"tai100b\": 1151591000", "\"tai100b\": 1515910000", "fire", "D9.5"),
+    V("silent-declared-bound-lowered", "moptipyapps/qap/instance.py",
+      "\"tai12a\": 224416", "\"tai12a\": 224000", "silent"),
+]
